@@ -21,16 +21,27 @@ ASSUMPTIONS = [
     'exact real arithmetic: rounding, overflow, NaN and signed zeros are outside every theorem',
     'the (1 - 1e-14) / (1 + 1e-14) safety factors of proximal_convex_conj_l1*, proximal_l2 are modelled as 1 '
     '(absorbed by the 1e-9 tolerance of the correspondence)',
-    'Q-instance square root = floor approximation with relative error < 2^-64 (exact on rational squares); '
-    'the R-instance uses sqrt',
+    'Q/R link: PROVED (C07/Transfer.v) for every sqrt-free tree and factory -- Q2R commutes with fval / fprox; for the '
+    'leaves with a square root (L2 norm, 2-ball, pointwise 2-norms, Huber on vector fields, KL) and quadratic '
+    'perturbation the Q-instance uses a floor square root with relative error < 2^-64 (exact on rational squares), '
+    'the R-instance sqrt: assumed, covered by the 1e-9 tolerance',
     'NumPy ufuncs, sort, cumsum, broadcasting and ODL space arithmetic (lincomb, inner, ufuncs on product spaces) '
     'behave as modelled (validated by the correspondence, not proved)',
     'flat weighted-list model of spaces: <x,y> = sum w_i x_i y_i (checked per generated space against space.inner)']
-TRUSTED = ['C07/Model.v hand-written value-level model of every factory / binding (tied by the correspondence)',
+TRUSTED = ['C07/Model.v hand-written value-level model of the closed-form factory bodies (tied by the correspondence); the '
+           'class -> factory bindings, the rule wiring of functional.py and the operator expressions of the rule factories are '
+           'REGENERATED (translate/prox_bindings.py -> Gen/ProxBindings.v) and proved equal to the model in C07/Bindings.v',
+           'translate/prox_bindings.py (Python ast -> terms of C07/BindSyntax.v, fail-closed) and the value-level reading of '
+           'ConstantOperator / IdentityOperator / MultiplyOperator / operator +,-,* in C07/Bindings.v',
            'harness/c07.py tree builder (same tree -> ODL object and Coq term; it applies the scalar merging of '
            'OperatorLeftScalarMult.__init__ to the Coq term)',
            'values of the KL functionals are not executable (ln): their theorems are stated over R-level definitions and only '
            'their proximal formulas are compared with the code']
+
+
+def translate():
+    from translate import prox_bindings as PB
+    return {'Gen/ProxBindings.v': PB.translate()}
 
 
 # ------------------------------------------------------------------ spaces
@@ -112,7 +123,10 @@ def space_pool(rng, tier):
         (Sp('odl.rn(%d, weighting=%r)' % (n, rng.choice([0.5, 2.0, 4.0]))), 'rn-const'),
         (Sp('odl.rn(%d, weighting=%r)' % (n, arr)), 'rn-array'),
         (Sp('odl.uniform_discr(0, %r, %d)' % (rng.choice([1.0, 2.0, 0.5 * n, 4.0 * n]), n)), 'discr'),
-        (Sp('odl.uniform_discr([0, 0], [1, %r], [2, %d])' % (rng.choice([1.0, 3.0]), rng.choice([1, 2]))), 'discr2d'),
+        (Sp('odl.uniform_discr([0, 0], [1, %r], [2, %d])' % (rng.choice([1.0, 3.0]), rng.choice([1, 2, 3]))), 'discr2d'),
+        (Sp('odl.rn((2, 3)%s)' % rng.choice(['', ', weighting=0.5', ', weighting=2.0'])), 'rn2d'),
+        (Sp('odl.uniform_discr([0, 0, 0], [1, 1, %r], [2, 1, 3])' % rng.choice([3.0, 1.5])), 'discr3d'),
+        (Sp('odl.rn((3, 2), weighting=np.array([[1.0, 2.0], [0.5, 4.0], [0.25, 1.0]]))'), 'rn-array'),
     ]
     return pool
 
@@ -173,7 +187,7 @@ def nat(n):
 # tree := ('leaf', kind, params, Sp) | ('lscal', s, t) | ('rscal', s, t) | ('ssum', c, t)
 #       | ('transl', flat, t) | ('qpert', a, u|None, c, t) | ('breg', point, subgrad, t) | ('sep', t1, t2)
 LEAF_KINDS = ['l1', 'l2', 'l2sq', 'linf', 'const', 'zero', 'box', 'nonneg', 'indzero', 'ballinf', 'ball2',
-              'ball1', 'huber', 'simplex', 'groupl1', 'groupball']
+              'ball1', 'huber', 'simplex', 'groupl1', 'groupball', 'huberg', 'sumc']
 
 
 def tree_space(t):
@@ -183,6 +197,11 @@ def tree_space(t):
 
 def rand_leaf(rng, tier, kind=None):
     kind = kind or rng.choice(LEAF_KINDS)
+    if kind == 'huberg':
+        base, tag = rand_space(rng, tier, flat_only=True)
+        d = rng.choice([1, 2, 2, 3])
+        sp = Sp('odl.ProductSpace(%s, %d)' % (base.code, d))
+        return ('leaf', kind, {'m': base.n, 'd': d, 'gamma': rng.choice([0.25, 0.5, 1.0, 2.0, 0.0])}, sp)
     if kind in ('groupl1', 'groupball'):
         base, tag = rand_space(rng, tier, flat_only=True)
         while len(base.space.shape) != 1 and False:
@@ -191,11 +210,9 @@ def rand_leaf(rng, tier, kind=None):
         sp = Sp('odl.ProductSpace(%s, %d)' % (base.code, d))
         two = rng.random() < 0.6
         return ('leaf', kind, {'m': base.n, 'd': d, 'two': two}, sp)
-    sp, tag = rand_space(rng, tier, flat_only=(kind == 'huber'), power_only=kind in ('simplex', 'linf', 'ball1'),
+    sp, tag = rand_space(rng, tier, flat_only=(kind == 'huber'), power_only=kind in ('simplex', 'linf', 'ball1', 'sumc'),
                          pweights_ok=kind in ('l1', 'l2', 'l2sq', 'const', 'zero', 'box', 'nonneg', 'indzero', 'ballinf',
                                               'ball2', 'simplex', 'linf', 'ball1'))
-    while kind == 'huber' and tag == 'rn-array':     # recorded finding huber-array-weighted-space (probe)
-        sp, tag = rand_space(rng, tier, flat_only=True)
     n = sp.n
     p = {}
     if kind == 'const':
@@ -215,7 +232,74 @@ def rand_leaf(rng, tier, kind=None):
         p['gamma'] = rng.choice([0.25, 0.5, 1.0, 2.0, 0.0])
     elif kind == 'simplex':
         p['diam'] = rng.choice([1.0, 2.0, 0.5, 3.0])
+    elif kind == 'sumc':
+        p['c'] = rng.choice([1.0, 2.0, -1.5, 0.5, 4.0])
     return ('leaf', kind, p, sp)
+
+
+GRID_SPACES = [
+    ('odl.rn(3)', 'rn'), ('odl.rn(1)', 'rn'), ('odl.rn(3, weighting=2.0)', 'rn-const'),
+    ('odl.rn(3, weighting=[0.5, 1.0, 4.0])', 'rn-array'), ('odl.uniform_discr(0, 2.0, 4)', 'discr'),
+    ('odl.rn((2, 3))', 'rn2d'), ('odl.rn((2, 3), weighting=0.5)', 'rn2d'),
+    ('odl.uniform_discr([0, 0], [1, 3.0], [2, 3])', 'discr2d'),
+    ('odl.uniform_discr([0, 0, 0], [1, 1, 3.0], [2, 1, 3])', 'discr3d'),
+    ('odl.ProductSpace(odl.rn(2), 3)', 'pow-rn'), ('odl.ProductSpace(odl.rn((2, 2)), 2)', 'pow-rn2d'),
+    ('odl.ProductSpace(odl.rn(2), 3, weighting=[1.0, 2.0, 0.5])', 'wpow-rn'),
+    ('odl.ProductSpace(odl.rn(2), odl.rn(3))', 'prod-rn-rn'),
+]
+GRID_BASES = [('odl.rn(2)', 2), ('odl.rn(3, weighting=[0.5, 1.0, 4.0])', 3), ('odl.rn((2, 2))', 4),
+              ('odl.uniform_discr([0, 0], [1, 3.0], [2, 3])', 6), ('odl.rn(1)', 1)]
+GRID_PARAMS = {
+    'const': [{'c': -1.5}], 'indzero': [{'c': 0.0}, {'c': 2.0}],
+    'box': [{'lo': -1.0, 'hi': 1.0}, {'lo': None, 'hi': 0.0}, {'lo': 0.5, 'hi': 0.5}],
+    'huber': [{'gamma': 0.0}, {'gamma': 0.015625}, {'gamma': 64.0}, {'gamma': 1.0}],
+    'simplex': [{'diam': 1.0}, {'diam': 0.015625}, {'diam': 64.0}],
+    'sumc': [{'c': 1.0}, {'c': -3.0}, {'c': 64.0}],
+}
+GRID_STEPS = [0.015625, 1.0, 64.0]
+
+
+def corner_grid(rng, all_steps=False):
+    """Deterministic crossing: every leaf class x parameter corner values x every space kind (1-d, N-d tensor /
+    discretized, constant / array weights, power / weighted power / non-power product spaces) x tiny / unit / huge step.
+    Yields (tree, step, x)."""
+    for kind in LEAF_KINDS:
+        if kind in ('groupl1', 'groupball', 'huberg'):
+            for bcode, m in GRID_BASES:
+                for d in (1, 2, 3):
+                    plist = [{'two': True}, {'two': False}] if kind != 'huberg' else \
+                        [{'gamma': 0.0}, {'gamma': 0.015625}, {'gamma': 64.0}, {'gamma': 1.0}]
+                    for p in plist:
+                        q = dict(p, m=m, d=d)
+                        t = ('leaf', kind, q, Sp('odl.ProductSpace(%s, %d)' % (bcode, d)))
+                        sg = GRID_STEPS[(m + d + len(repr(p))) % 3]
+                        # points whose pointwise norms lie on both sides of the step, with several non-zero components
+                        x = [rng.choice([-1, 1]) * rng.choice([0.25, 0.5, 1.5, 3.0, 6.0]) for _ in range(m * d)]
+                        yield t, ('scal', sg), x, True, 'pow'
+            continue
+        for si, (scode, tag) in enumerate(GRID_SPACES):
+            sp = Sp(scode)
+            for pi, p in enumerate(GRID_PARAMS.get(kind, [{}])):
+                p = dict(p)
+                if kind == 'box':
+                    n = sp.n
+                    if p['lo'] == 0.5:      # degenerate box as element-valued bounds
+                        p = {'lo': [0.5] * n, 'hi': [0.5] * n}
+                t = ('leaf', kind, p, sp)
+                corr_ok = finding_key(kind, sp) not in ('proj-simplex-nonpower-product-space',
+                                                        'huber-nonpower-product-space',
+                                                        'indicator-sum-constraint-nonpower-product-space')
+                if kind == 'huber' and 'ProductSpace' in scode:
+                    # Huber on a product space is the vector-field Huber: modelled by FHuberG on unweighted power spaces
+                    if tag in ('pow-rn', 'pow-rn2d'):
+                        d = len(sp.space)
+                        t = ('leaf', 'huberg', dict(p, m=sp.n // d, d=d), sp)
+                    else:
+                        corr_ok = False
+                steps = GRID_STEPS if all_steps else [GRID_STEPS[(si + pi) % 3]]
+                for sg in steps:
+                    x = [rng.choice([-1, 1]) * rng.choice([0.25, 0.5, 1.5, 3.0, 6.0, 0.0]) for _ in range(sp.n)]
+                    yield t, ('scal', sg), x, corr_ok, tag
 
 
 def tree_dim(t):
@@ -298,6 +382,10 @@ def build(t):
             return S.GroupL1Norm(X, 2 if p['two'] else 1)
         if kind == 'groupball':
             return S.IndicatorGroupL1UnitBall(X, 2 if p['two'] else np.inf)
+        if kind == 'huberg':
+            return S.Huber(X, p['gamma'])
+        if kind == 'sumc':
+            return S.IndicatorSumConstraint(X, p['c'])
         raise ValueError(kind)
     if k == 'sep':
         return S.SeparableSum(build(t[1]), build(t[2]))
@@ -338,6 +426,8 @@ def tree_code(t):
             'simplex': 'S.IndicatorSimplex(%%s, %r)' % p.get('diam'),
             'groupl1': 'S.GroupL1Norm(%%s, %s)' % ('2' if p.get('two') else '1'),
             'groupball': 'S.IndicatorGroupL1UnitBall(%%s, %s)' % ('2' if p.get('two') else 'np.inf'),
+            'huberg': 'S.Huber(%%s, %r)' % p.get('gamma'),
+            'sumc': 'S.IndicatorSumConstraint(%%s, %r)' % p.get('c'),
         }[kind] % X
     if k == 'sep':
         return 'S.SeparableSum(%s, %s)' % (tree_code(t[1]), tree_code(t[2]))
@@ -375,6 +465,8 @@ def coq_tree(t):
             'simplex': '(FSimplex %s)' % C.q(p.get('diam', 1)),
             'groupl1': '(FGroupL1 %s %s %s)' % (nat(p.get('m', 0)), nat(p.get('d', 0)), C.b(p.get('two'))),
             'groupball': '(FGroupBall %s %s %s)' % (nat(p.get('m', 0)), nat(p.get('d', 0)), C.b(p.get('two'))),
+            'huberg': '(FHuberG %s %s %s)' % (nat(p.get('m', 0)), nat(p.get('d', 0)), C.q(p.get('gamma', 0))),
+            'sumc': '(FSumC %s)' % C.q(p.get('c', 1)),
         }[kind]
         return '(Leaf %s %s)' % (lk, w)
     if k == 'sep':
@@ -430,13 +522,24 @@ def vec_step_ok(t):
     """Can the tree's proximal take a per-point (space element) step?"""
     k = t[0]
     if k == 'leaf':
-        return t[1] in ('l1', 'l2sq', 'const', 'zero', 'box', 'nonneg', 'indzero', 'ball1', 'simplex') or \
+        return t[1] in ('l1', 'l2sq', 'const', 'zero', 'box', 'nonneg', 'indzero', 'ball1', 'simplex', 'sumc') or \
             (t[1] == 'groupl1' and not t[2]['two'])
     if k == 'sep':
         return vec_step_ok(t[1]) and vec_step_ok(t[2])
     if k in ('lscal', 'ssum', 'transl', 'rscal'):
         return vec_step_ok(t[-1])
+    if k in ('qpert', 'breg'):
+        # element-valued steps go through np.asarray(sigma): tensor-space domains only
+        return vec_step_ok(t[-1]) and tree_is_flat(t[-1]) and not (k == 'qpert' and t[1] < 0)
     return False
+
+
+def tree_is_flat(t):
+    if t[0] == 'leaf':
+        return 'ProductSpace' not in t[3].code
+    if t[0] == 'sep':
+        return False
+    return tree_is_flat(t[-1])
 
 
 def rand_step(rng, t, allow_struct=True):
@@ -523,9 +626,14 @@ def tree_cases(rng, tier):
     made = 0
     # every leaf kind at depth 0 first, then random trees
     todo = [('leafonly', k) for k in LEAF_KINDS for _ in range(2 if tier == 'quick' else 6)]
-    while made < ntrees:
+    grid = [g for g in corner_grid(rng, all_steps=(tier != 'quick')) if g[3]]
+    while made < ntrees or grid:
+        forced = None
         try:
-            if todo:
+            if grid:
+                t, gstep, gx, _, _ = grid.pop()
+                forced = (gstep, gx)
+            elif todo:
                 _, kind = todo.pop()
                 t = rand_leaf(rng, tier, kind)
             else:
@@ -535,13 +643,17 @@ def tree_cases(rng, tier):
         except Skip:
             continue
         n = tree_dim(t)
-        for rep in range(3):
+        for rep in range(3 if forced is None else 1):
             conj = (rep == 2)          # third variant: FunctionalDefaultConvexConjugate(f).proximal (Moreau rule)
             step = rand_step(rng, t, allow_struct=(rep == 1))
             if conj:
                 step = ('scal', pos(rng))
+                if vec_step_ok(t) and tree_is_flat(t) and rng.random() < 0.5:
+                    step = ('vec', [pos(rng) for _ in range(n)])
             r = rng.random()
             x = kink_points(rng, n, step) if r < 0.3 else ([0.0] * n if r < 0.36 else vec(rng, n))
+            if forced is not None:
+                step, x = forced
             X = f.domain
             xe = unflatten(X, x)
             val = 'IVSkip'
@@ -573,12 +685,13 @@ def tree_cases(rng, tier):
                     'python': 'f = %s; f.proximal(%s)(unflatten(f.domain, %r))'
                               % (tree_code(t), step_code(step, 'f.domain'), x)}
             cs.add(term, desc, (tree_desc(t), repr(step), tuple(x), conj) if any(x) else None)
-        made += 1
+        if forced is None:
+            made += 1
     return cs
 
 
 # ------------------------------------------------------------ factories
-def rand_factory(rng, tier, depth, sp=None, top=True):
+def rand_factory(rng, tier, depth, sp=None, top=True, force_kind=None, force_g=None):
     """Returns (python_builder(space)->factory, coq_term, desc, Sp, vec_ok)."""
     import odl
     P = odl.solvers.nonsmooth.proximal_operators
@@ -640,13 +753,12 @@ def rand_factory(rng, tier, depth, sp=None, top=True):
              'nonneg', 'kl', 'klcc']
     if top:
         kinds += ['projsimplex', 'projl1']        # plain functions, not operators: only called directly
-    if 'weighting=[' not in sp.code:
-        kinds.append('huber')
+    kinds.append('huber')
     if not forced:
         kinds += ['l1l2', 'ccl1l2']
-    kind = rng.choice(kinds)
+    kind = force_kind or rng.choice(kinds)
     lam = rng.choice([1.0, 0.5, 2.0, 3.0, 0.25])
-    g = None if rng.random() < 0.4 else vec(rng, n, lo=-6, hi=6)
+    g = None if (rng.random() < 0.4 if force_g is None else not force_g) else vec(rng, n, lo=-6, hi=6)
     ge = (lambda: None) if g is None else (lambda: sp.el(g))
     w = C.qs(sp.weights)
     if kind == 'l1':
@@ -654,7 +766,7 @@ def rand_factory(rng, tier, depth, sp=None, top=True):
                 'l1(lam=%r,g=%r)@%s' % (lam, g, sp.code), sp, True)
     if kind == 'ccl1':
         return ((lambda: P.proximal_convex_conj_l1(X, lam, ge())), '(KCCL1 %s %s)' % (C.q(lam), coq_opt_vec(g)),
-                'ccl1(lam=%r,g=%r)@%s' % (lam, g, sp.code), sp, g is None)
+                'ccl1(lam=%r,g=%r)@%s' % (lam, g, sp.code), sp, True)
     if kind == 'l2':
         return ((lambda: P.proximal_l2(X, lam, ge())), '(KL2 %s %s %s)' % (w, C.q(lam), coq_opt_vec(g)),
                 'l2(lam=%r,g=%r)@%s' % (lam, g, sp.code), sp, False)
@@ -736,18 +848,33 @@ ATOMIC = ('l1', 'ccl1', 'l2', 'ccl2', 'l2sq', 'ccl2sq', 'linf', 'cclinf', 'box',
 def factory_cases(rng, tier):
     cs = C.CaseSet('factories', ['C07.Model', 'C07.Corr'], 'check_fac', 'fcase')
     n_f = 160 if tier == 'quick' else 1600
-    for i in range(n_f):
-        mk, term_f, desc_f, sp, vec_ok = rand_factory(rng, tier, rng.choice([0, 0, 1, 1, 2]))
+    # branch grid first: every atomic factory x (g None | given) x (scalar | element step) x (plain | aliased call)
+    grid = []
+    for kind in ('l1', 'ccl1', 'l2', 'ccl2', 'l2sq', 'ccl2sq', 'linf', 'cclinf', 'box', 'const', 'cckl', 'huber',
+                 'l1l2', 'ccl1l2'):
+        for fg in (False, True):
+            for fv in (False, True):
+                for fa in (False, True):
+                    grid.append((kind, fg, fv, fa))
+    for i in range(len(grid) + n_f):
+        if i < len(grid):
+            kind, fg, fv, fa = grid[i]
+            mk, term_f, desc_f, sp, vec_ok = rand_factory(rng, tier, 0, force_kind=kind, force_g=fg)
+            if fv and not vec_ok:
+                continue
+        else:
+            fv = fa = None
+            mk, term_f, desc_f, sp, vec_ok = rand_factory(rng, tier, rng.choice([0, 0, 1, 1, 2]))
         n = sp.n
-        for rep in range(2):
-            if vec_ok and rng.random() < 0.4:
+        for rep in range(2 if fv is None else 1):
+            if (vec_ok and rng.random() < 0.4) if fv is None else fv:
                 step = ('vec', [pos(rng) for _ in range(n)])
             else:
                 step = ('scal', pos(rng))
             r = rng.random()
             x = kink_points(rng, n, step) if r < 0.3 else ([0.0] * n if r < 0.36 else vec(rng, n))
             xe = sp.el(x)
-            alias = rng.random() < 0.25 and 'proj_' not in desc_f and '(' not in desc_f.split('@')[0].split('(')[0] and desc_f.split('(')[0] in ATOMIC
+            alias = (rng.random() < 0.25 if fa is None else fa) and 'proj_' not in desc_f and desc_f.split('(')[0].split('@')[0] in ATOMIC
 
             def call():
                 op = mk()(impl_step(step, sp.space))     # construction errors (a < 0, lower > upper) count as the outcome
@@ -908,10 +1035,8 @@ def finding_key(kind, sp):
         power = (not _is_pspace(sp.space)) or sp.space.is_power_space
     except Exception:
         pass
-    if kind == 'huber' and 'ProductSpace' in code:
-        return 'huber-product-space'
-    if kind == 'huber' and 'weighting=[' in code:
-        return 'huber-array-weighted-space'
+    if kind == 'huber' and not power:
+        return 'huber-nonpower-product-space'
     if kind in ('simplex', 'linf', 'ball1') and not power:
         return 'proj-simplex-nonpower-product-space'
     if kind == 'linf' and _nonunit_weights(sp):
@@ -920,8 +1045,10 @@ def finding_key(kind, sp):
         return 'indicator-l1-ball-weighted-space'
     if kind == 'simplex' and _nonconst_weights(sp):
         return 'indicator-simplex-nonuniform-weights'
-    if kind == 'sumconstr':
-        return 'indicator-sum-constraint-proximal'
+    if kind in ('sumconstr', 'sumc') and not power:
+        return 'indicator-sum-constraint-nonpower-product-space'
+    if kind in ('sumconstr', 'sumc') and _nonconst_weights(sp):
+        return 'indicator-sum-constraint-nonuniform-weights'
     if kind in ('nuclear-np.inf',):
         return 'nuclear-norm-exp-inf-proximal'
     if kind == 'nuclear-ball':
@@ -980,10 +1107,8 @@ def probes(rng, tier):
         except Exception as e:   # noqa
             ok, detail, wz = False, 'raised %s: %s' % (type(e).__name__, str(e)[:120]), None
         if not ok and detail and detail.startswith('f(p) =') and 'IndicatorLpUnitBall' in fcode and ', 1)' in fcode \
-                and key.startswith('opt-'):
+                and key.startswith(('opt-', 'grid-')):
             key = 'indicator-l1-ball-rounding-outside'     # recorded: proj_l1 has no safety margin
-        if not ok and kind == 'sumconstr' and detail and 'AttributeError' not in detail and _nonconst_weights(sp):
-            key = 'indicator-sum-constraint-nonuniform-weights'
         out.append(C.Probe(ok, key, what, optimal_replay(fcode, spec, xflat, wz), detail))
         return ok
 
@@ -999,12 +1124,35 @@ def probes(rng, tier):
                 t = rand_leaf(rng, tier, kind)
             sp = t[3]
             spec = rand_step(rng, t)
-            if k0 in ('box', 'nonneg', 'const', 'zero', 'indzero', 'ball1', 'simplex') and spec[0] == 'vec':
+            if k0 in ('box', 'nonneg', 'const', 'zero', 'indzero', 'ball1', 'simplex', 'sumc') and spec[0] == 'vec':
                 spec = ('scal', pos(rng))        # step unused by these proximals: probe with a scalar metric
             x = vec(rng, sp.n)
             fk = finding_key(k0, sp)
             key = fk or 'opt-%s-%s-%s' % (k0, _space_kind(sp.code), spec[0])
             run_case(k0, tree_code(t), sp, spec, x, key)
+    # 1b. deterministic corner grid: parameter corners x every space kind (N-d, weighted, power / non-power products)
+    INDICATORS = ('box', 'nonneg', 'indzero', 'ballinf', 'ball2', 'ball1', 'simplex', 'groupball', 'sumc')
+    for t, spec, x, corr_ok, tag in corner_grid(rng, all_steps=(tier != 'quick')):
+        k0, sp = t[1], t[3]
+        fk = finding_key('huber' if k0 == 'huberg' else k0, sp)
+        key = fk or 'grid-%s-%s' % (k0, tag)
+        ok = run_case(k0, tree_code(t), sp, spec, x, key)
+        if ok and k0 in INDICATORS:
+            code = tree_code(t)
+            rp = (PROBE_PRELUDE + "f = %s\nX = f.domain\nx = unflatten(X, %r)\nP = f.proximal(%r); p = P(x); pp = P(p)\n"
+                  "observed = {'f(p)': float(f(p)), 'dist(P(p), p)': float((pp - p).norm())}\n"
+                  "ok = bool(np.isfinite(float(f(p)))) and float((pp - p).norm()) <= 1e-9*(1+float(p.norm()))\n"
+                  % (code, x, spec[1]))
+            e2 = {}
+            try:
+                exec(rp, e2)
+                ok2 = bool(e2['ok'])
+            except Exception:
+                ok2 = False
+            if not ok2 and k0 == 'ball1' and e2.get('observed', {}).get('dist(P(p), p)', 1) <= 1e-9:
+                fk = fk or 'indicator-l1-ball-rounding-outside'
+            out.append(C.Probe(ok2, fk or 'grid-idempotent-%s-%s' % (k0, tag),
+                               '%s: proximal lands in the set and is idempotent' % code, rp))
     # 2. derived functionals (random trees)
     ntrees = 40 if tier == 'quick' else 300
     made = 0
@@ -1019,7 +1167,7 @@ def probes(rng, tier):
             continue
         made += 1
         spec = rand_step(rng, t)
-        if spec[0] != 'scal' and any(k in ('box', 'nonneg', 'const', 'zero', 'indzero', 'ball1', 'simplex')
+        if spec[0] != 'scal' and any(k in ('box', 'nonneg', 'const', 'zero', 'indzero', 'ball1', 'simplex', 'sumc')
                                      for k in leaf_kinds(t)):
             spec = ('scal', pos(rng))
         x = vec(rng, tree_dim(t))
@@ -1057,15 +1205,13 @@ def probes(rng, tier):
     for kind in ('l1', 'l2', 'l2sq', 'ccl1', 'ccl2', 'ccl2sq', 'l1l2', 'ccl1l2', 'huber', 'box', 'linf', 'cclinf'):
         for _ in range(reps):
             sp, _tag = rand_space(rng, tier, flat_only=True)
-            if kind in ('huber',) and 'weighting=[' in sp.code:
-                continue
             if kind in ('linf', 'cclinf') and _nonunit_weights(sp):
                 continue
             n = sp.n
             lam = rng.choice([0.5, 1.0, 2.0, 3.0])
             g = vec(rng, n, lo=-6, hi=6)
             Xc = sp.code
-            vec_ok = kind in ('l1', 'l2sq', 'ccl2sq')
+            vec_ok = kind in ('l1', 'l2sq', 'ccl2sq', 'ccl1')
             nog = rng.random() < 0.35          # the g=None branches of the factories
             garg = 'None' if nog else 'unflatten(X, %r)' % (g,)
             tr = (lambda f: f) if nog else (lambda f: '(%s).translated(unflatten(X, %r))' % (f, g))
@@ -1160,7 +1306,7 @@ def probes(rng, tier):
         except Exception:
             ok = False
         out.append(C.Probe(ok, 'firm-nonexpansive-%s' % t[0], '%s: ||p1-p2||^2 <= <p1-p2, x1-x2>' % code, rp))
-    for kind in ('box', 'nonneg', 'indzero', 'ballinf', 'ball2', 'ball1', 'simplex', 'groupball'):
+    for kind in ('box', 'nonneg', 'indzero', 'ballinf', 'ball2', 'ball1', 'simplex', 'groupball', 'sumc'):
         for _ in range(reps):
             t = rand_leaf(rng, tier, kind)
             sp = t[3]
